@@ -376,7 +376,7 @@ pub fn gen_stream_ops(rec: &mut Rec, rng: &mut Rng, exec: &mut dyn FnMut(&mut Re
         0 => 0,
         1 => count.min(60),
         2 => count.saturating_sub(1 + rng.below(3)).min(60),
-        3 => (count + 1 + rng.below(4)).min(60),
+        3 => count.saturating_add(1 + rng.below(4)).min(60),
         4 => rng.below(12),
         _ => rng.below(48),
     } as usize;
